@@ -354,8 +354,16 @@ def get(E, name):
         return Builtin(name, _B[name])
     if name in EXC_PARENT:
         return ExcClass(name)
-    if name in ("dict", "set", "object", "float"):
-        return Builtin(name, None)
+    if name == "set":
+        def _set(E_, s, args, kw):
+            if args:
+                raise Unsupported("set(iterable)")
+            return ok(s, s.alloc(IntSetCell()))
+        return Builtin("set", _set)
+    if name in ("dict", "object", "float"):
+        def _unsupported(E_, s, args, kw, name=name):
+            raise Unsupported(f"call of builtin {name}()")
+        return Builtin(name, _unsupported)
     if name == "True":
         return True
     return None
@@ -559,6 +567,14 @@ def _getattr(E, s, v, attr):
             return ok(s, method("symlist.append", sym_append))
         if isinstance(c, DictCell):
             return dict_method(E, s, v, attr)
+        if isinstance(c, IntSetCell) and attr == "add":
+            def set_add(E_, s_, a, k):
+                if not is_intlike(a[0]):
+                    raise Unsupported("set.add of a non-integer")
+                cc = s_.cell(v)
+                s_.set_cell(v, IntSetCell(z3.Store(cc.present, int_term(a[0]), True)))
+                return ok(s_, None)
+            return ok(s, method("set.add", set_add))
         return None
     if isinstance(v, (str, SStr, SStrV)):
         return str_method(E, s, v, attr)
